@@ -306,3 +306,143 @@ Proof.
   pose proof (K_reach h2 _ _ _ K1 M3) as K2.
   eapply JK_change; eauto.
 Qed.
+
+(* ---- a held button, a press after a quiet period, period <= 0 -------------- *)
+(* _SteadyDebounce.get() never reads a pressed button as released *)
+Lemma sd_get_pressed : forall d now, snd (sd_get d now true) = true.
+Proof. intros. unfold sd_get. destruct (now - sd_latest d <? sd_period d); reflexivity. Qed.
+
+Lemma steady_never_hides_press : forall p h s,
+  s_level s = true -> out sd_step (sd_new p) h s = true.
+Proof. intros p h s H. unfold out, sd_step. rewrite H. apply sd_get_pressed. Qed.
+
+Lemma joystickget_pressed : forall o now, snd (joystickget o now true) = true.
+Proof.
+  intros. unfold joystickget. destruct (o_deb o) as [d|]; [|reflexivity].
+  pose proof (sd_get_pressed d now) as E. destruct (sd_get d now true). exact E.
+Qed.
+
+Lemma sample_tgl : forall o s,
+  tgl (o_tg (fst (toggle_sample o s))) =
+  xorb (tgl (o_tg o)) (snd (joystickget o (s_now s) (s_level s)) && negb (released (o_tg o))).
+Proof. intros. rewrite sample_tg. apply tg_get_tgl. Qed.
+
+Lemma sample_released : forall o s,
+  released (o_tg (fst (toggle_sample o s))) = snd (joystickget o (s_now s) (s_level s)).
+Proof. intros. rewrite sample_tg. apply tg_get_released. Qed.
+
+(* with or without debounce, any clock: the sample that follows a sample that
+   read the button pressed never changes the value *)
+Lemma toggle_no_change_after_pressed_sample : forall p h s1 s2,
+  s_level s1 = true -> value p (h ++ [s1; s2]) = value p (h ++ [s1]).
+Proof.
+  intros p h s1 s2 H. unfold value.
+  change (h ++ [s1; s2]) with (h ++ [s1] ++ [s2]). rewrite app_assoc, (reach_snoc _ (h ++ [s1])).
+  rewrite sample_tgl. rewrite (reach_snoc _ h), sample_released, H, joystickget_pressed.
+  rewrite andb_false_r. apply xorb_false_r.
+Qed.
+
+(* the debounced toggle changes only at a released->pressed edge of the
+   sampled raw levels *)
+Lemma toggle_debounce_change_only_at_rising_edge : forall p h s,
+  mono_from 0 (map s_now (h ++ [s])) ->
+  value (Some p) (h ++ [s]) <> value (Some p) h ->
+  s_level s = true /\ last (map s_level h) false = false.
+Proof.
+  intros p h s Hm Hc. split.
+  - eapply toggle_debounce_change_needs_press; eauto.
+  - destruct h as [|a h0] using rev_ind; [reflexivity|].
+    rewrite map_app. cbn [map]. rewrite last_snoc.
+    destruct (s_level a) eqn:L; [|reflexivity]. exfalso. apply Hc.
+    rewrite <- app_assoc. apply toggle_no_change_after_pressed_sample. exact L.
+Qed.
+
+(* the window anchor is the constructor's or the clock reading of a sample
+   that read the button pressed *)
+Lemma sd_latest_inv : forall h d,
+  sd_period (reach sd_step d h) = sd_period d /\
+  (sd_latest (reach sd_step d h) = sd_latest d \/
+   exists s', In s' h /\ s_level s' = true /\ sd_latest (reach sd_step d h) = s_now s').
+Proof.
+  induction h as [|a h IH]; intros d.
+  - simpl. auto.
+  - change (reach sd_step d (a :: h)) with (reach sd_step (fst (sd_step d a)) h).
+    destruct (IH (fst (sd_step d a))) as (P & Q).
+    assert (S : (fst (sd_step d a) = d) \/
+                (s_level a = true /\ sd_period (fst (sd_step d a)) = sd_period d /\
+                 sd_latest (fst (sd_step d a)) = s_now a)).
+    { unfold sd_step, sd_get. destruct (s_now a - sd_latest d <? sd_period d); [left; reflexivity|].
+      destruct (s_level a); [right; simpl; auto | left; reflexivity]. }
+    destruct S as [S | (L & SP & SL)].
+    + rewrite S in *. split; [exact P|]. destruct Q as [Q | (s' & I & L & E)]; [left; exact Q|].
+      right. exists s'. split; [right; exact I | auto].
+    + split; [congruence|]. right. destruct Q as [Q | (s' & I & L' & E)].
+      * exists a. split; [left; reflexivity|]. split; [exact L | congruence].
+      * exists s'. split; [right; exact I | auto].
+Qed.
+
+Lemma sd_quiet_last : forall p h,
+  0 <= last (map s_now h) 0 ->
+  last (map s_level h) false = false ->
+  (forall s', In s' h -> s_level s' = true -> last (map s_now h) 0 - s_now s' >= p) ->
+  last (run sd_step (sd_new p) h) false = false.
+Proof.
+  intros p h. destruct h as [|a h0 _] using rev_ind; [reflexivity|].
+  rewrite !map_app, run_snoc. cbn [map]. rewrite !last_snoc. intros H0 HL HQ.
+  destruct (sd_latest_inv h0 (sd_new p)) as (P & Q).
+  unfold out. set (d' := reach sd_step (sd_new p) h0) in *.
+  unfold sd_step, sd_get. rewrite HL, P. simpl.
+  destruct (s_now a - sd_latest d' <? p) eqn:W; [|reflexivity].
+  exfalso. apply Z.ltb_lt in W. destruct Q as [Q | (s' & I & L & E)].
+  - rewrite Q in W. simpl in W. lia.
+  - rewrite E in W. specialize (HQ s' (in_or_app _ _ _ (or_introl I)) L). lia.
+Qed.
+
+(* liveness: a sample that reads pressed, right after a sample that read
+   released (or first of all), flips the toggle when every earlier sample that
+   read pressed lies at least p before that released sample *)
+Lemma toggle_debounce_press_after_quiet_flips : forall p h s,
+  0 <= last (map s_now h) 0 ->
+  last (map s_level h) false = false ->
+  (forall s', In s' h -> s_level s' = true -> last (map s_now h) 0 - s_now s' >= p) ->
+  s_level s = true ->
+  value (Some p) (h ++ [s]) <> value (Some p) h.
+Proof.
+  intros p h s H0 HL HQ Hs. unfold value. rewrite reach_snoc, sample_tgl.
+  apply xorb_changes. rewrite Hs, joystickget_pressed. simpl.
+  destruct (deb_reach h (sd_new p) (mkToggle false false false)) as (_ & _ & C).
+  unfold toggle_new. simpl. cbn [released] in C. rewrite C.
+  rewrite (sd_quiet_last p h H0 HL HQ). reflexivity.
+Qed.
+
+(* a debounce period <= 0 debounces nothing: on clocks that start at or after
+   0 and never go backwards the Toggle returns what the plain Toggle returns *)
+Lemma nonpositive_period_run : forall h d t lo,
+  sd_period d <= 0 -> lo - sd_latest d >= sd_period d -> mono_from lo (map s_now h) ->
+  run toggle_sample (mkObj (Some d) t) h = run toggle_sample (mkObj None t) h.
+Proof.
+  induction h as [|a h IH]; intros d t lo Hp Hw Hm; [reflexivity|].
+  simpl in Hm. destruct Hm as [M1 M2].
+  assert (E : toggle_sample (mkObj (Some d) t) a =
+              (mkObj (Some (if s_level a then mkSteady (s_now a) (sd_period d) (sd_enabled d) else d))
+                     (tg_get t (s_level a)), tg_read (tg_get t (s_level a)) (s_acc a))).
+  { unfold toggle_sample, joystickget, sd_get. simpl.
+    destruct (s_now a - sd_latest d <? sd_period d) eqn:W.
+    - apply Z.ltb_lt in W. lia.
+    - destruct (s_level a); reflexivity. }
+  change (run toggle_sample (mkObj (Some d) t) (a :: h)) with
+    (snd (toggle_sample (mkObj (Some d) t) a) :: run toggle_sample (fst (toggle_sample (mkObj (Some d) t) a)) h).
+  change (run toggle_sample (mkObj None t) (a :: h)) with
+    (tg_read (tg_get t (s_level a)) (s_acc a) :: run toggle_sample (mkObj None (tg_get t (s_level a))) h).
+  rewrite E. simpl. f_equal. apply (IH _ _ (s_now a)); auto.
+  - destruct (s_level a); simpl; auto.
+  - destruct (s_level a); simpl; lia.
+Qed.
+
+Lemma toggle_nonpositive_period_is_plain : forall p h,
+  p <= 0 -> mono_from 0 (map s_now h) ->
+  toggle_run (Some p) h = toggle_run None h.
+Proof.
+  intros p h Hp Hm. unfold toggle_run, toggle_new. simpl.
+  apply (nonpositive_period_run h (sd_new p) _ 0); simpl; auto. lia.
+Qed.
